@@ -15,7 +15,9 @@ META = {
              'put several labels on one node) plus tables with DOT-hostile labels (quotes, '
              'brackets, "->", "=", ";", spaces, non-ASCII). Events: every Lattice.graphviz() call; '
              'each table is exported twice, with recording label callbacks (opaque token returned, '
-             'names remembered) and with the default callbacks. Oracle: an independent DOT line '
+             'names remembered; also behind the shapes user callbacks come in: plain function, lambda or '
+             'method with defaulted options after the names, functools.partial, keyword-only options, '
+             '*args wrapper, positional-only parameter) and with the default callbacks. Oracle: an independent DOT line '
              'parser over .body: node statements are exactly c<index>, one per member; non-loop '
              'edges are exactly (c_i, c_j) for j a lower cover of i in the shadow lattice, each '
              'once; a self-loop with headlabel exists iff the member carries object labels (by '
@@ -27,7 +29,8 @@ META = {
     'required_counters': ['judged_graphviz', 'judged_with_recording_callbacks',
                           'judged_with_default_callbacks', 'one_concept_lattices',
                           'two_concept_lattices', 'nodes_with_several_labels', 'hostile_label_tables',
-                          'edges_checked', 'label_texts_checked', 'judged_with_one_recording_callback'],
+                          'edges_checked', 'label_texts_checked', 'judged_with_one_recording_callback',
+                          'judged_with_function_method_partial_callbacks'],
     'shards': {'quick': 16, 'thorough': 16},
     'exhaustive': {'quick': 'all 682 boolean tables <= 3x3', 'thorough': 'all boolean tables <= 3x3, 3x4, 4x3, 4x4'},
     'assumptions': ['labels containing a backslash or shaped like <...> are out of scope '
@@ -61,6 +64,65 @@ class FalsyRecorder(Recorder):
 
     def __len__(self):
         return 0
+
+
+_UNSET = object()
+
+
+class _Formatter:
+    """An object whose *method* is the callback (options with defaults after the names)."""
+
+    def __init__(self, recorder):
+        self.recorder = recorder
+
+    def label(self, names, width=_UNSET, sep=_UNSET):
+        if width is not _UNSET or sep is not _UNSET:
+            return 'callback-was-given-more-than-the-names'
+        return self.recorder(names)
+
+
+def shaped(rec, k):
+    """The recorder ``rec`` behind one of the shapes user callbacks come in: a plain function, a lambda
+    with a defaulted option after the names, a bound method with options, a ``functools.partial`` with
+    a keyword-bound option, a keyword-only option, a ``*args`` wrapper, a callable with a positional-only
+    parameter.  All of them are called with the names alone; an option that arrives filled in makes the
+    callback answer with a text that is none of its tokens."""
+    import functools
+    wrong = 'callback-was-given-more-than-the-names'
+    k %= 7
+    if k == 0:
+        def f(names):
+            return rec(names)
+    elif k == 1:
+        f = lambda names, sep=_UNSET: rec(names) if sep is _UNSET else wrong       # noqa: E731
+    elif k == 2:
+        return _Formatter(rec).label
+    elif k == 3:
+        def g(names, prefix=_UNSET, suffix=_UNSET):
+            return rec(names) if prefix == '' and suffix is _UNSET else wrong
+        f = functools.partial(g, prefix='')
+    elif k == 4:
+        def f(names, *, upper=False, concept=None):
+            return rec(names) if concept is None and not upper else wrong
+    elif k == 5:
+        def f(*args):
+            return rec(*args) if len(args) == 1 else wrong
+    else:
+        def f(names, /, concept=None, lattice=None):
+            return rec(names) if concept is None and lattice is None else wrong
+    f.recorder = rec
+    return f
+
+
+def recorder_of(cb):
+    """The Recorder behind a callback of ours (or None for the default / foreign callbacks)."""
+    if isinstance(cb, Recorder):
+        return cb
+    for holder in (cb, getattr(cb, '__self__', None)):
+        r = getattr(holder, 'recorder', None)
+        if isinstance(r, Recorder):
+            return r
+    return None
 
 
 _TOKEN = re.compile(r'\s*(?:"((?:[^"\\]|\\.)*)"|([^\s\[\]=,;"]+)|(\[|\]|=|,|;|->|--))')
@@ -164,9 +226,12 @@ class GraphvizMonitor(Monitor):
         ocb = kwargs.get('make_object_label', args[5] if len(args) > 5 else None)
         pcb = kwargs.get('make_property_label', args[6] if len(args) > 6 else None)
         for cb in (ocb, pcb):
-            if cb is not None and not isinstance(cb, Recorder):
+            if cb is not None and recorder_of(cb) is None:
                 COL.count('out_of_scope_foreign_callbacks')
                 return
+        if any(cb is not None and not isinstance(cb, Recorder) for cb in (ocb, pcb)):
+            COL.count('judged_with_function_method_partial_callbacks')
+        ocb, pcb = recorder_of(ocb), recorder_of(pcb)
         recording = isinstance(ocb, Recorder) or isinstance(pcb, Recorder)
         if isinstance(ocb, Recorder) != isinstance(pcb, Recorder):
             COL.count('judged_with_one_recording_callback')
@@ -330,6 +395,8 @@ def run_case(concepts, case, spec):
     call(lat.graphviz, make_object_label=Recorder('L', literal=True), make_property_label=Recorder('M', literal=True))
     call(lat.graphviz, make_object_label=FalsyRecorder('F'), make_property_label=FalsyRecorder('G'))
     call(lat.graphviz, None, None, False, False, Recorder('W'), Recorder('Y'))     # documented positional order
+    kk = hash(gen.table_key(case))
+    call(lat.graphviz, make_object_label=shaped(Recorder('A'), kk), make_property_label=shaped(Recorder('B'), kk // 7))
     call(lat.graphviz, make_object_label=Recorder('Q'))
     call(lat.graphviz, make_property_label=Recorder('R'))
     call(lat.graphviz)
